@@ -126,12 +126,10 @@ def row_old_palette_count(ctx, site):
 def row_tag_index_plus_one(ctx, site):
     b = site.body
     fx = ctx.fx
-    ok_guard = False
-    for cond, vals, a in q.guards(b, site.bb):
-        if cond[0] == 'discr' and cond[1][0] == 'try' and vals == [0]:
-            for x in walk(cond):
-                if x[0] == 'call' and x[1] in ('core::slice::get_mut', 'std::vec::Vec::get_mut') and is_param(strip_casts(x[2][1]), 3):
-                    ok_guard = True
+    # tags.get_mut(tag_index) was required to be Some (ok_or_else(..)?, let-else, match, is_none test) before the increment
+    req = T.option_required(b, lambda x: any(y[0] == 'call' and y[1] in ('core::slice::get_mut', 'std::vec::Vec::get_mut', 'core::slice::get', 'std::vec::Vec::get')
+                                               and is_param(strip_casts(y[2][1]), 3) for y in walk(x)))
+    ok_guard = any(b.cfg.dominates(r_, site.bb) and r_ != site.bb for r_ in req)
     if not ok_guard:
         return False, 'tag_index + 1 is not dominated by a successful tags.get_mut(tag_index)'
     tb = fx.body('asefile::tags::parse_chunk')
